@@ -5,4 +5,5 @@ pub mod craft;
 pub mod variant;
 
 pub mod d_codec;
+pub mod d_decode;
 pub mod d_verify;
